@@ -369,60 +369,50 @@ func r15_8(c *Ctx, r *Report) {
 		}
 		return nil, false
 	}
-	// (a) no branch that can be taken before the first push looks at a week
-	var firstPush *ssa.BasicBlock
-	for _, b := range fn.Blocks {
-		if hasPush(b) && (firstPush == nil || b.Dominates(firstPush)) {
-			firstPush = b
-		}
-	}
-	var weekDependent func(v ssa.Value, depth int, seen map[ssa.Value]bool) bool
-	weekDependent = func(v ssa.Value, depth int, seen map[ssa.Value]bool) bool {
-		if v == nil || depth > 10 || seen[v] {
-			return false
-		}
-		seen[v] = true
-		if structName(v.Type()) == "SolarWeek" {
-			return true
-		}
-		if ins, ok := v.(ssa.Instruction); ok {
-			for _, op := range ins.Operands(nil) {
-				if *op != nil && weekDependent(*op, depth+1, seen) {
-					return true
+	// (a) from the entry the first push is reached whatever the week of the 1st looks like: the walk is given
+	// nothing about any week's days, so a condition that consults one cannot be followed
+	{
+		leafA := func(fr *evalFrame, v ssa.Value) (interface{}, bool) {
+			if x, ok := objLeaf(fr, v); ok {
+				return x, true
+			}
+			if rc, f, ok := getterField(c, v); ok {
+				if ofr, o := fr.origin(rc); ofr.parent == nil && o == ssa.Value(fn.Params[0]) {
+					switch f {
+					case "SolarMonth.year":
+						return int64(2023), true
+					case "SolarMonth.month":
+						return int64(1), true
+					}
 				}
 			}
+			if p, ok := v.(*ssa.Parameter); ok && fr.parent == nil && len(fn.Params) == 2 && p == fn.Params[1] {
+				return int64(1), true
+			}
+			return nil, false
 		}
-		return false
-	}
-	var early []string
-	if firstPush != nil {
-		// blocks from which the first push is reachable without having passed it
-		reach := map[*ssa.BasicBlock]bool{firstPush: true}
-		for changed := true; changed; {
-			changed = false
-			for _, b := range fn.Blocks {
-				if reach[b] || b == firstPush {
-					continue
-				}
-				for _, sc := range b.Succs {
-					if reach[sc] && !firstPush.Dominates(b) {
-						reach[b] = true
-						changed = true
+		ev := &evaluator{inline: inlineLibrary, leaf: leafA}
+		fr := &evalFrame{fn: fn, phiFrom: map[*ssa.BasicBlock]*ssa.BasicBlock{}}
+		outcome := "stop:0"
+		if !hasPush(fn.Blocks[0]) {
+			_, outcome = ev.runFrame(fr, nil, hasPush)
+		}
+		pushed := ""
+		if len(outcome) > 5 && outcome[:5] == "stop:" {
+			var idx int
+			fmt.Sscanf(outcome[5:], "%d", &idx)
+			for _, ins := range fn.Blocks[idx].Instrs {
+				if call, ok := ins.(*ssa.Call); ok && call.Common().StaticCallee() != nil && call.Common().StaticCallee().String() == "(*container/list.List).PushBack" && pushed == "" {
+					if o, ok := ev.eval(fr, unwrapIface(call.Common().Args[1]), 0); ok {
+						if ptr, isP := o.(absPtr); isP {
+							pushed = ptr.tag
+						}
 					}
 				}
 			}
 		}
-		for b := range reach {
-			if b == firstPush {
-				continue
-			}
-			if iff, ok := b.Instrs[len(b.Instrs)-1].(*ssa.If); ok && weekDependent(iff.Cond, 0, map[ssa.Value]bool{}) {
-				early = append(early, c.pos(iff.Cond.Pos()))
-			}
-		}
+		r.check(pushed == "week of the 1st", rule, constructA, c.fnPos(fn), fmt.Sprintf("walk from the entry knowing nothing about any week's days: %s %s; first pushed: %q (a month test on the week of the 1st fails for a January whose 1st is not the first weekday: that week starts in December)", outcome, ev.fail, pushed))
 	}
-	sort.Strings(early)
-	r.check(firstPush != nil && len(early) == 0, rule, constructA, c.fnPos(fn), fmt.Sprintf("branch conditions on a week that can be evaluated before the first week is pushed: %v (a month test on the week of the 1st fails for a January whose 1st is not the first weekday: that week starts in December)", early))
 	// (b) a listing of as many weeks as GetWeeksOfMonth reports is decided with R15.6
 	for _, b := range fn.Blocks {
 		iff, ok := b.Instrs[len(b.Instrs)-1].(*ssa.If)
